@@ -120,7 +120,11 @@ def rand_history(rng):
     return {"hide": hide, "h": h, "w": w, "ops": ops}
 
 
+_TIER = ["quick"]
+
+
 def generate(rng, tier):
+    _TIER[0] = tier
     n = 6000 if tier == "thorough" else 500
     for _ in range(n):
         yield rand_history(rng)
@@ -141,7 +145,52 @@ def canon_row(obj):
     return [[obj, [0] * 8]] if isinstance(obj, str) else canon.canon_fs(obj)
 
 
+def pyte_second_opinion(inp, res):
+    """thorough tier: replay the same bytes in the vendored pyte emulator and compare its screen with the
+    expected one after every render (second opinion on the reference terminal model; informational)"""
+    import pyte
+    h, w = inp["h"], inp["w"]
+    scr = pyte.Screen(w, h)
+    stream = pyte.Stream(scr)
+    stream.feed(res["enter"])
+    k = 0
+    verdict = "agree"
+    for op in inp["ops"]:
+        if op[0] == "resize":
+            h, w = op[1], op[2]
+            scr.resize(h, w)
+            scr.reset()
+            for r, row in enumerate(op[3]):
+                for c, (ch, st) in enumerate(row):
+                    scr.buffer[r][c] = scr.buffer[r][c]._replace(data=ch, fg="red" if st[0] else "default")
+            scr.cursor.y, scr.cursor.x = op[4], op[5]
+            continue
+        if k >= len(res["renders"]) or k >= len(res["arrays"]):
+            return "incomplete"
+        stream.feed(res["renders"][k])
+        rows = res["arrays"][k]
+        k += 1
+        for r in range(h):
+            want = "".join(t for t, _ in rows[r])[:w] if r < len(rows) else ""
+            got = "".join(scr.buffer[r][c].data for c in range(w))
+            if got.rstrip(" ") != want.rstrip(" ") or (len(want) > len(got)):
+                verdict = "DISAGREE"
+        if (scr.cursor.y, min(scr.cursor.x, w - 1)) != tuple(op[3]):
+            verdict = "DISAGREE"
+    return verdict
+
+
 def run(inp):
+    out = _run(inp)
+    if _TIER[0] == "thorough" and out["error"] is None:
+        try:
+            out["pyte"] = pyte_second_opinion(inp, out)
+        except Exception as e:  # noqa
+            out["pyte"] = "error:%s" % type(e).__name__
+    return out
+
+
+def _run(inp):
     _SIZE[0], _SIZE[1] = inp["h"], inp["w"]
     out = io.StringIO()
     pos = 0
@@ -223,6 +272,8 @@ def nontrivial(inp, out):
 
 
 def stats(inp, out):
+    if "pyte" in out:
+        yield "pyte:" + out["pyte"]
     yield "size=%dx%d" % (inp["h"], inp["w"])
     yield "ops=%d" % len(inp["ops"])
     yield "hide=%s" % inp["hide"]
